@@ -8,9 +8,8 @@
    Method: three applications of a comparison lemma (u(0) = 0, |u'| <= w' on [0, e] => |u| <= w),
    itself the mean value theorem applied to u - w and u + w. *)
 From Coq Require Import List Arith Lia Reals Lra Psatz.
-From Coquelicot Require Import Coquelicot.
 From OV Require Import Base.Panic Base.Arith Model.Newton
-  Proofs.NewtonLoop Proofs.Newton Proofs.NewtonReal Proofs.Newton2Real Proofs.Newton2Scalar.
+  Proofs.NewtonLoop Proofs.Newton Proofs.NewtonReal Proofs.Newton2Deriv Proofs.Newton2Real Proofs.Newton2Scalar.
 Import ListNotations.
 Local Open Scope R_scope.
 
@@ -41,28 +40,6 @@ Proof.
   unfold Rabs. destruct (Rcase_abs (u t)); lra.
 Qed.
 
-(* derivatives along  t |-> y + t  and  t |-> y - t *)
-Lemma shift_plus (p : R -> R) (y t l : R) :
-  derivable_pt_lim p (y + t) l -> derivable_pt_lim (fun t => p (y + t)) t l.
-Proof.
-  intros H. apply is_derive_Reals. apply is_derive_Reals in H.
-  replace l with (1 * l) by ring.
-  apply (is_derive_comp p (fun t => y + t) t l 1 H).
-  auto_derive; [exact I|ring].
-Qed.
-
-Lemma shift_minus (p : R -> R) (y t l : R) :
-  derivable_pt_lim p (y - t) l -> derivable_pt_lim (fun t => p (y - t)) t (- l).
-Proof.
-  intros H. apply is_derive_Reals. apply is_derive_Reals in H.
-  replace (- l) with ((-1) * l) by ring.
-  apply (is_derive_comp p (fun t => y - t) t l (-1) H).
-  auto_derive; [exact I|ring].
-Qed.
-
-Lemma dlim_val (p : R -> R) (t l l' : R) : derivable_pt_lim p t l -> l = l' -> derivable_pt_lim p t l'.
-Proof. intros H <-. exact H. Qed.
-
 Section Central.
 Variables (g g1 g2 g3 : R -> R) (y e B : R).
 Hypothesis He : 0 < e.
@@ -82,7 +59,7 @@ Proof.
   assert (D1 : derivable_pt_lim (fun t => g (y + t)) t (g1 (y + t))) by (apply shift_plus, H1; lra).
   assert (D2 : derivable_pt_lim (fun t => g (y - t)) t (- g1 (y - t))) by (apply shift_minus, H1; lra).
   assert (D3 : derivable_pt_lim (fun t => 2 * g1 y * t) t (2 * g1 y)).
-  { apply is_derive_Reals. auto_derive; [exact I|ring]. }
+  { dpoly. }
   eapply dlim_val.
   - exact (derivable_pt_lim_minus _ _ _ _ _ (derivable_pt_lim_minus _ _ _ _ _ D1 D2) D3).
   - ring.
@@ -113,7 +90,7 @@ Lemma l_bound t : 0 <= t <= e -> Rabs (l t) <= 2 * B * t.
 Proof.
   apply (compare0 l l' (fun t => 2 * B * t) (fun _ => 2 * B) e).
   - exact l_der.
-  - intros s _. apply is_derive_Reals. auto_derive; [exact I|ring].
+  - intros s _. dpoly.
   - unfold l. rewrite Rplus_0_r, Rminus_0_r. ring.
   - ring.
   - intros s Hs. unfold l'. eapply Rle_trans; [apply Rabs_triang|].
@@ -125,7 +102,7 @@ Lemma k_bound t : 0 <= t <= e -> Rabs (k t) <= B * (t * t).
 Proof.
   apply (compare0 k l (fun t => B * (t * t)) (fun t => 2 * B * t) e).
   - exact k_der.
-  - intros s _. apply is_derive_Reals. auto_derive; [exact I|ring].
+  - intros s _. dpoly.
   - unfold k. rewrite Rplus_0_r, Rminus_0_r. ring.
   - ring.
   - exact l_bound.
@@ -135,7 +112,7 @@ Lemma h_bound t : 0 <= t <= e -> Rabs (h t) <= B / 3 * (t * t * t).
 Proof.
   apply (compare0 h k (fun t => B / 3 * (t * t * t)) (fun t => B * (t * t)) e).
   - exact h_der.
-  - intros s _. apply is_derive_Reals. auto_derive; [exact I|field].
+  - intros s _. dpoly.
   - unfold h. rewrite Rplus_0_r, Rminus_0_r. ring.
   - ring.
   - exact k_bound.
